@@ -17,6 +17,9 @@ open Kit Kit.Spiffe
 def parseEv (w : String) : Option Ev :=
   match w.splitOn ":" with
   | ["cr"] => some .callRun
+  | ["crp"] => some .callRunHeld
+  | ["rpark"] => some .runPark
+  | ["rrel"] => some .runRelease
   | ["cy"] => some .callReady
   | ["cg"] => some (.callGet false)
   | ["cgp"] => some (.callGet true)
